@@ -1,0 +1,272 @@
+//go:build verif
+
+package scanner
+
+import (
+	"fmt"
+	"reflect"
+	"runtime"
+	"strconv"
+	"strings"
+	"sync"
+	"unsafe"
+
+	"github.com/jsightapi/jsight-schema-go-library/errors"
+	"github.com/jsightapi/jsight-schema-go-library/fs"
+	"github.com/jsightapi/jsight-schema-go-library/internal/lexeme"
+)
+
+// Verification hook (build tag verif): a canonical key of the scanner's whole
+// control state after a prefix, for the product-state exploration of /verif
+// (schema-tprod). Nothing position dependent is part of the key: positions are
+// compared through the delivered events.
+
+// verifEvCode two/three letter codes of the lexical event types.
+var verifEvCode = [...]string{
+	lexeme.LiteralBegin: "Lb", lexeme.LiteralEnd: "Le", lexeme.ObjectBegin: "Ob", lexeme.ObjectEnd: "Oe",
+	lexeme.ObjectKeyBegin: "Kb", lexeme.ObjectKeyEnd: "Ke", lexeme.ObjectValueBegin: "Vb", lexeme.ObjectValueEnd: "Ve",
+	lexeme.ArrayBegin: "Ab", lexeme.ArrayEnd: "Ae", lexeme.ArrayItemBegin: "Ib", lexeme.ArrayItemEnd: "Ie",
+	lexeme.InlineAnnotationBegin: "iab", lexeme.InlineAnnotationEnd: "iae",
+	lexeme.InlineAnnotationTextBegin: "itb", lexeme.InlineAnnotationTextEnd: "ite",
+	lexeme.MultiLineAnnotationBegin: "mab", lexeme.MultiLineAnnotationEnd: "mae",
+	lexeme.MultiLineAnnotationTextBegin: "mtb", lexeme.MultiLineAnnotationTextEnd: "mte",
+	lexeme.NewLine: "nl", lexeme.TypesShortcutBegin: "tsb", lexeme.TypesShortcutEnd: "tse",
+	lexeme.KeyShortcutBegin: "ksb", lexeme.KeyShortcutEnd: "kse",
+	lexeme.MixedValueBegin: "mxb", lexeme.MixedValueEnd: "mxe", lexeme.EndTop: "et",
+}
+
+// verifStackCode one letter per opening event type (the lexeme stack holds opening events only).
+func verifStackCode(t lexeme.LexEventType) byte {
+	switch t { //nolint:exhaustive // Opening types only.
+	case lexeme.LiteralBegin:
+		return 'L'
+	case lexeme.ObjectBegin:
+		return 'O'
+	case lexeme.ObjectKeyBegin:
+		return 'K'
+	case lexeme.ObjectValueBegin:
+		return 'V'
+	case lexeme.ArrayBegin:
+		return 'A'
+	case lexeme.ArrayItemBegin:
+		return 'I'
+	case lexeme.InlineAnnotationBegin:
+		return 'i'
+	case lexeme.InlineAnnotationTextBegin:
+		return 't'
+	case lexeme.MultiLineAnnotationBegin:
+		return 'm'
+	case lexeme.MultiLineAnnotationTextBegin:
+		return 'x'
+	case lexeme.TypesShortcutBegin:
+		return 'S'
+	case lexeme.KeyShortcutBegin:
+		return 'k'
+	case lexeme.MixedValueBegin:
+		return 'M'
+	}
+	return '?'
+}
+
+// verifFuncWord the word a func value consists of: the address of its closure object.
+func verifFuncWord(f stepFunc) uintptr {
+	return *(*uintptr)(unsafe.Pointer(&f))
+}
+
+// verifNamer names step functions. A closure (the guard installed after an inline
+// annotation wraps the step function it returns to) is named outer(inner): the
+// captured step function is the first word after the code pointer of the closure
+// object; it is only trusted when it is a func value that has been seen in
+// s.step or on the return stack before (which is where the guard takes it from).
+type verifNamer struct {
+	words [48]uintptr
+	funcs [48]stepFunc
+	n     int
+	rlen  int
+}
+
+func (n *verifNamer) add(f stepFunc) {
+	w := verifFuncWord(f)
+	for i := n.n - 1; i >= 0; i-- {
+		if n.words[i] == w {
+			return
+		}
+	}
+	if n.n < len(n.words) {
+		n.words[n.n] = w
+		n.funcs[n.n] = f
+		n.n++
+	}
+}
+
+// observe records the func values in s.step and those pushed on the return stack by the last step.
+func (n *verifNamer) observe(s *Scanner) {
+	n.add(s.step)
+	l := s.returnToStep.Len()
+	for i := n.rlen; i < l; i++ {
+		n.add(s.returnToStep.Get(i))
+	}
+	if l > 0 {
+		n.add(s.returnToStep.Get(l - 1))
+	}
+	n.rlen = l
+}
+
+func (n *verifNamer) lookup(w uintptr) (stepFunc, bool) {
+	for i := 0; i < n.n; i++ {
+		if n.words[i] == w {
+			return n.funcs[i], true
+		}
+	}
+	return nil, false
+}
+
+func (n *verifNamer) name(f stepFunc, depth int) string {
+	if f == nil {
+		return "nil"
+	}
+	pc := reflect.ValueOf(f).Pointer()
+	var short string
+	if v, ok := verifNames.Load(pc); ok {
+		short = v.(string)
+	} else {
+		full := runtime.FuncForPC(pc).Name()
+		short = full[strings.LastIndex(full, "/")+1:]
+		short = strings.TrimPrefix(short, "scanner.")
+		verifNames.Store(pc, short)
+	}
+	if !strings.Contains(short, ".func") {
+		return short
+	}
+	inner := "?"
+	if depth < 4 {
+		obj := *(*unsafe.Pointer)(unsafe.Pointer(&f))
+		w := *(*uintptr)(unsafe.Add(obj, unsafe.Sizeof(uintptr(0))))
+		if g, ok := n.lookup(w); ok {
+			inner = n.name(g, depth+1)
+		}
+	}
+	return short + "(" + inner + ")"
+}
+
+// verifNames caches code pointer -> function name.
+var verifNames sync.Map
+
+func verifCtx(sb *strings.Builder, c context) {
+	sb.WriteString(strconv.Itoa(int(c.Type)))
+	if c.ArrayHasItem {
+		sb.WriteByte('+')
+	}
+}
+
+func (n *verifNamer) key(s *Scanner) string {
+	var sb strings.Builder
+	sb.WriteString("K:")
+	sb.WriteString(n.name(s.step, 0))
+	sb.WriteString("|r=")
+	for i := 0; i < s.returnToStep.Len(); i++ {
+		if i > 0 {
+			sb.WriteByte(',')
+		}
+		sb.WriteString(n.name(s.returnToStep.Get(i), 0))
+	}
+	sb.WriteString("|s=")
+	for i := 0; i < s.stack.Len(); i++ {
+		sb.WriteByte(verifStackCode(s.stack.Get(i).Type()))
+	}
+	sb.WriteString("|c=")
+	for i := 0; i < s.prevContextsStack.Len(); i++ {
+		verifCtx(&sb, s.prevContextsStack.Get(i))
+		sb.WriteByte(',')
+	}
+	verifCtx(&sb, s.context)
+	flag := func(name string, v int) {
+		sb.WriteString(name)
+		sb.WriteString(strconv.Itoa(v))
+	}
+	b2i := func(b bool) int {
+		if b {
+			return 1
+		}
+		return 0
+	}
+	flag("|an=", int(s.annotation))
+	flag("|u=", b2i(s.unfinishedLiteral))
+	flag("|b=", int(s.boundary))
+	flag("|aa=", b2i(s.allowAnnotation))
+	flag("|ht=", b2i(s.hasTrailingCharacters))
+	flag("|lc=", b2i(s.lengthComputing))
+	flag("|f=", len(s.finds))
+	return sb.String()
+}
+
+// VerifProbe feeds data to a fresh scanner exactly as Next does - one step per
+// byte, every found lexeme processed before the next byte is read - but without
+// the end-of-input rule, and returns "<events>|<outcome>": the events delivered
+// since the scanner began to read the byte at position from ("code" + begin:end),
+// and the canonical key of its control state ("K:..."), or "ERR code index", or
+// "CRASH", or "STOP" when the end-top event is delivered in length mode (followed
+// by the result of Length on data).
+func VerifProbe(data []byte, from int, lengthMode bool) (out string) {
+	var evs []string
+	defer func() {
+		if r := recover(); r != nil {
+			res := "CRASH"
+			if de, ok := r.(errors.DocumentError); ok {
+				res = fmt.Sprintf("ERR %d %d", de.ErrCode(), de.Index())
+			}
+			out = strings.Join(evs, " ") + "|" + res
+		}
+	}()
+	var s *Scanner
+	if lengthMode {
+		s = New(fs.NewFile("", data), ComputeLength)
+	} else {
+		s = New(fs.NewFile("", data))
+	}
+	n := verifNamer{}
+	n.observe(s)
+	recording := false
+	for {
+		if len(s.finds) != 0 {
+			lex := s.processingFoundLexeme(s.shiftFound())
+			if recording {
+				evs = append(evs, verifEvCode[lex.Type()]+strconv.Itoa(int(lex.Begin()))+":"+strconv.Itoa(int(lex.End())))
+			}
+			if lex.Type() == lexeme.EndTop && lengthMode {
+				res := "STOP"
+				func() {
+					defer func() {
+						if r := recover(); r != nil {
+							if de, ok := r.(errors.DocumentError); ok {
+								res += fmt.Sprintf(" ERR %d %d", de.ErrCode(), de.Index())
+							} else {
+								res += " CRASH"
+							}
+						}
+					}()
+					res += fmt.Sprintf(" LEN %d", New(fs.NewFile("", data), ComputeLength).Length())
+				}()
+				return strings.Join(evs, " ") + "|" + res
+			}
+			continue
+		}
+		if s.index >= s.dataSize {
+			break
+		}
+		if int(s.index) >= from {
+			recording = true
+		}
+		c := s.data[s.index]
+		s.index++
+		s.step(s, c)
+		n.observe(s)
+	}
+	return strings.Join(evs, " ") + "|" + n.key(s)
+}
+
+// VerifKey the canonical key of the control state after data (or the outcome), without events.
+func VerifKey(data []byte, lengthMode bool) string {
+	r := VerifProbe(data, len(data)+1, lengthMode)
+	return r[strings.Index(r, "|")+1:]
+}
